@@ -7,3 +7,5 @@ pub mod cfgmodel;
 pub mod h2kit;
 pub mod wctl;
 pub mod xkit;
+pub mod hckit;
+pub mod sozukit;
